@@ -432,6 +432,12 @@ def check_function(v, fn, reqs, rel=None):
         s1, d1 = decide_nonneg(lo)
         s2, d2 = decide_nonneg(sym.sub(ext, sym.add(hi, I(1))))
         if guards and (s1 != "proved" or s2 != "proved"):
+            from . import affine
+            gf = affine.guard_constraints([R(g) for g in guards]) + affine.loop_constraints(loops)
+            if affine.prove_nonneg(R(index), gf) and affine.prove_nonneg(sym.sub(sym.sub(ext, R(index)), I(1)), gf):
+                obs.append({"key": key, "status": "proved", "where": where,
+                            "detail": "0 <= %s < %s under %s" % (sym.show(index), sym.show(ext), "; ".join(sym.show(g) for g in guards)[:80])})
+                continue
             obs.append({"key": key, "status": "assumed", "where": where,
                         "detail": "access is under a condition (%s); bound not decided without it" % sym.show(guards[-1])[:60]})
             continue
@@ -474,6 +480,13 @@ def check_function(v, fn, reqs, rel=None):
                     obs.append({"key": key, "status": "assumed", "where": where, "detail": "requirement depends on run-time data"})
                     continue
                 s, d = decide_nonneg(sym.sub(ext, need2))
+                if s != "proved" and guards:
+                    # the call is under conditions: use them (d <= c guards bound a dimension by a constant)
+                    from . import affine
+                    if affine.prove_nonneg(sym.sub(ext, need2), affine.guard_constraints([R(g) for g in guards])):
+                        s, d = "proved", "under %s" % "; ".join(sym.show(g) for g in guards)[:80]
+                    else:
+                        s, d = "unknown", "call is under a condition (%s); bound not decided with it" % sym.show(guards[-1])[:60]
                 obs.append({"key": key, "status": {"proved": "proved", "refuted": "refuted", "unknown": "assumed"}[s], "where": where,
                             "detail": "%s accesses %s (%s): %s" % (cal.name, detail, where2, d)})
     return obs, len(arrays)
